@@ -4,7 +4,9 @@ import CssVerif.Lib.Proto
 # the declaration part of `serialize.py`, `helper.normalize`) and of the DOM-name converters
 # (`cssutils/css/cssproperties.py`)
 
-Hand transcription, statement by statement (`file.py:line` in the comments; lines of /repo HEAD).
+Hand transcription, statement by statement (`file.py:line` in the comments). The style-declaration line numbers
+below `:225` are those before `__effective` was inserted (add 15-17 for the current file: `getProperties :410`,
+`getProperty :449`, `removeProperty :562`, `setProperty :610`, `item :687`).
 Strings are lists of code points (`Nat`).
 
 What is *outside* this kernel is a parameter (`Env`), never a guess:
@@ -261,21 +263,30 @@ def isPropLit (name : Cps) : Item → Bool
   | .prop p => p.lit == name
   | _ => false
 
-/-- the loop of `getProperty` over `reversed(self.seq)` (`cssstyledeclaration.py:447-457`); the list is the
-reversed `seq`, so its head is `seq[rest.length]`; the result is the index of the `Property` object in `seq` -/
-def gpScan (nname name : Cps) (norm : Bool) : List Item → Option Nat → Option Nat
+/-- the loop shared by `getProperty` (`cssstyledeclaration.py:462-472`) and `__effective` (`:232-240`) over
+`reversed(self.seq)`, `m` being the name test of the loop; the list is the reversed `seq`, so its head is
+`seq[rest.length]`; the result is the index of the `Property` object in `seq` -/
+def scanBy (m : Pty → Bool) : List Item → Option Nat → Option Nat
   | [], found => found
   | .prop p :: rest, found =>
-    if (norm && nname == p.name) || name == p.lit then
+    if m p then
       if p.prio != [] then some rest.length
       else match found with
-        | none => gpScan nname name norm rest (some rest.length)
-        | some f => gpScan nname name norm rest (some f)
-    else gpScan nname name norm rest found
-  | _ :: rest, found => gpScan nname name norm rest found
+        | none => scanBy m rest (some rest.length)
+        | some f => scanBy m rest (some f)
+    else scanBy m rest found
+  | _ :: rest, found => scanBy m rest found
 
+/-- `getProperty`: `(normalize and nname == val.name) or name == val.literalname` -/
 def getPropertyIdx (seq : List Item) (name : Cps) (norm : Bool) : Option Nat :=
-  gpScan (normalize name) name norm seq.reverse none
+  scanBy (fun p => (norm && normalize name == p.name) || name == p.lit) seq.reverse none
+
+/-- `__effective(nname)`: `val.name == nname`, the argument is NOT normalised again (`:225-240`) -/
+def effectiveIdx (seq : List Item) (nname : Cps) : Option Nat :=
+  scanBy (fun p => p.name == nname) seq.reverse none
+
+def effectiveOf (seq : List Item) (nname : Cps) : Option Pty :=
+  (effectiveIdx seq nname).bind (propAt seq)
 
 /-- `getProperty(name, normalize)` -/
 def getProperty (seq : List Item) (name : Cps) (norm : Bool) : Option Pty :=
@@ -316,7 +327,7 @@ def length (seq : List Item) : Nat := (nnames seq).length
 /-- `keys()` (`:138-141`) -/
 def keys (seq : List Item) : List Cps := nnames seq
 /-- `__iter__` (`:129-136`) -/
-def iter (seq : List Item) : List (Option Pty) := (nnames seq).map (fun n => getProperty seq n true)
+def iter (seq : List Item) : List (Option Pty) := (nnames seq).map (effectiveOf seq)
 /-- `__contains__` with a string (`:117-127`) -/
 def contains (seq : List Item) (name : Cps) : Bool := (nnames seq).contains (normalize name)
 
@@ -333,7 +344,7 @@ def getPropertiesIdx (seq : List Item) (name : Cps) (all : Bool) : List (Option 
     | some i => [some i]
     | none => []
   else if !all then
-    (nnames seq).map (fun n => getPropertyIdx seq n true)
+    (nnames seq).map (effectiveIdx seq)
   else
     let nname := normalize name
     (propIdxs (fun p => nname == [] || p.name == nname) seq 0).map some
@@ -559,27 +570,36 @@ def replaceFirst (nname : Cps) (new : VItem) : List VItem → List VItem
   | [] => []
   | x :: rest => if isVarNamed nname x then new :: rest else x :: replaceFirst nname new rest
 
-/-- `setVariable(name, value)` with a string value (`:263-312`) -/
+/-- `[x.value for x in seq if 'IDENT' == x.type][0]` on the result of the name grammar: the value of the first IDENT
+token (`none` = IndexError) -/
+def firstIdent : List Tok → Option Cps
+  | [] => none
+  | t :: rest => if t.typ == .ident then some t.val else firstIdent rest
+
+/-- `setVariable(name, value)` with a string value (`:264-320`): the name is checked by the grammar on the raw string;
+the stored name is the identifier the grammar accepted, the key its normal form -/
 def vSet (env : Env) (s : Vars) (name value : Cps) : VRes Unit :=
   if s.readonly then ⟨s, .error .noModification⟩
   else
-    let nn := normalize name
-    if !env.isIdent nn then
+    if !env.isIdent name then
       match logCall env with
       | .error e => ⟨s, .error e⟩
       | .ok _ => ⟨s, .ok ()⟩
     else
       match env.parseValue value with
       | none =>
-        -- PropertyValue(cssText=value) logs (raises) itself, then 'Invalid variable value' (:294-295)
+        -- PropertyValue(cssText=value) logs (raises) itself, then 'Invalid variable value'
         match logCall env with
         | .error e => ⟨s, .error e⟩
         | .ok _ => ⟨s, .ok ()⟩
       | some v =>
-        let seq' :=
-          if (vKeys s).contains nn then replaceFirst nn (.var nn v) s.seq
-          else s.seq ++ [.var nn v]
-        ⟨{ s with seq := seq', vars := dictSet s.vars nn v }, .ok ()⟩
+        match firstIdent (env.tokenize name) with
+        | none => ⟨s, .error .pyCrash⟩
+        | some lit =>
+          let seq' :=
+            if (vKeys s).contains (normalize lit) then replaceFirst (normalize lit) (.var lit v) s.seq
+            else s.seq ++ [.var lit v]
+          ⟨{ s with seq := seq', vars := dictSet s.vars (normalize lit) v }, .ok ()⟩
 
 /-- an item of the sequence `ProdParser.parse` returns for a well-formed variables text (`:151-153`) -/
 inductive VSrc
